@@ -36,7 +36,10 @@ def check_bez(case):
     dis = []
     forms = [("segment.bbox()", lambda: seg.bbox()),
              ("Path(M, segment).bbox()", lambda: svg.Path(svg.Move(None, svg.Point(pts[0])), type(seg)(*[svg.Point(p) for p in pts])).bbox()),
-             ("reversed segment bbox", lambda: type(seg)(*[svg.Point(p) for p in reversed(pts)]).bbox())]
+             ("reversed segment bbox", lambda: type(seg)(*[svg.Point(p) for p in reversed(pts)]).bbox()),
+             # movetos that draw nothing (a stray one before the sub-path, a dangling one at the end) are not geometry
+             ("Path(M far, M, segment, M far).bbox()", lambda: svg.Path(svg.Move(None, svg.Point(-1000 * U, 900 * U)), svg.Move(None, svg.Point(pts[0])),
+                                                                       type(seg)(*[svg.Point(p) for p in pts]), svg.Move(None, svg.Point(1000 * U, -900 * U))).bbox())]
     for name, fn in forms:
         try:
             bb = fn()
